@@ -628,7 +628,9 @@ impl<'a, R: Sc> Gen<'a, R> where for<'x> &'x R: RingOps<R> {
 
     fn op_s(&mut self, m: usize, n: usize) -> Vec<String> {
         let mut t = vec![];
-        match self.r.below(30) {
+        match self.r.below(32) {
+            30 => { let m2 = self.same(m); t = self.fresh_p(m2); t.extend(tk("rperm swap mul")); }
+            31 => { let n2 = self.same(n); t = self.fresh_p(n2); t.extend(tk("cperm mul")); }
             0 | 1 => { let (m2, n2) = (self.same(m), self.same(n)); t = self.fresh_s(m2, n2); t.push((*self.r.pick(&["add", "sub"])).into()); }
             2 | 3 => { let k = self.dim(); let n2 = self.same(n); t = self.fresh_s(n2, k); t.push("mul".into()); }
             4 => { let k = self.dim(); let m2 = self.same(m); t = self.fresh_s(k, m2); t.extend(tk("swap mul")); }
@@ -882,7 +884,7 @@ fn main() {
     exhaustive::<i64>(&mut s, if thorough { 4 } else { 2 });
     if thorough { exhaustive::<Ratio<i64>>(&mut s, 3); exhaustive::<FF<3>>(&mut s, 3); }
 
-    let n = if thorough { 60_000 } else { 4_500 };
+    let n = if thorough { 400_000 } else { 24_000 };
     for k in 0..n {
         let max = if thorough { if k % 10 == 0 { 9 } else { 6 } } else { 5 };
         let mode = r.below(8).min(4);   // mixed 1/8, trans 1/8, dense 1/8, vec 1/8, sparse 1/2
